@@ -177,3 +177,21 @@ M('c07_collective_nonperiodic', 'C07,C12', (CO, "                dists = lattice
 M('c07_site_order_dependent_states', 'C07', (T, "        atom_sites[index] = siteno\n", "        atom_sites[index] = np.where((siteno == 0) & (index % 7 == 0), NOSITE, siteno)\n"))
 M('c07_volume_axis_aligned', 'C07,C08', (V, "    ny = int(1 + lattice.lengths[1] // resolution)\n", "    ny = int(1 + abs(lattice.matrix[1, 1]) // resolution) if abs(lattice.matrix[1, 1]) > resolution else int(1 + lattice.lengths[1] // resolution)\n"))
 M('c07_rdf_between_cart', 'C07,C11', (R, "            lattice.get_all_distances(coords_1[t, :, :], coords_2[t, :, :])\n", "            np.linalg.norm(lattice.get_cartesian_coords(coords_1[t, :, None, :] - coords_2[t, None, :, :]), axis=-1)\n"))
+# ---- C08 -------------------------------------------------------------------------------------
+M('c08_digitize_right', 'C08', (V, "            np.digitize(coords[:, 0], bins=xbins),\n", "            np.digitize(coords[:, 0], bins=xbins, right=True),\n"))
+M('c08_grid_one_short', 'C08', (V, "    nx = int(1 + lattice.lengths[0] // resolution)\n", "    nx = max(2, int(lattice.lengths[0] // resolution))\n"))
+M('c08_no_half_voxel', 'C08', (V, "        return (np.array(voxel) + 0.5) / np.array(self.dims)\n", "        return (np.array(voxel)) / np.array(self.dims)\n"))
+M('c08_round_voxel', 'C08', (V, "        return (np.array(frac_coords) * np.array(self.dims)).astype(int)\n", "        return np.round(np.array(frac_coords) * np.array(self.dims)).astype(int)\n"))
+M('c08_drop_upper_face', 'C08', (V, "    data[i, j, k] = counts\n", "    data[i, j, k] = counts\n    if nz > 4:\n        data[:, :, -1] = np.minimum(data[:, :, -1], 1)\n"))
+M('c08_voxel_size_dims_swapped', 'C08', (V, "        return np.array(self.lattice.lengths) / self.dims\n", "        return np.array(self.lattice.lengths) / self.dims[::-1]\n"))
+M('c08_grid_ceil', 'C08', (V, "    nz = int(1 + lattice.lengths[2] // resolution)\n", "    nz = int(2 + lattice.lengths[2] // resolution)\n"))
+M('c08_frac_to_voxel_float32', 'C08', (V, "        return (np.array(frac_coords) * np.array(self.dims)).astype(int)\n", "        return (np.array(frac_coords, dtype=np.float32) * np.array(self.dims)).astype(int)\n"))
+# ---- C09 -------------------------------------------------------------------------------------
+PA = 'path.py'
+M('c09_normalized_not_probability', 'C09', (V, "        prob = self.probability()\n        free_energy", "        prob = self.normalized()\n        free_energy"))
+M('c09_kb_joule', 'C09', (V, "physical_constants['Boltzmann constant in eV/K'][0]", "physical_constants['Boltzmann constant'][0]"))
+M('c09_no_nan_to_num', 'C09', (V, "            data=np.nan_to_num(free_energy),\n", "            data=free_energy,\n"))
+M('c09_node_filter_inf', 'C09', (PA, "        if 0 <= Fi < max_energy_threshold:\n", "        if 0 <= Fi <= max(max_energy_threshold, 1e309):\n"))
+M('c09_log10', 'C09', (V, "* np.log(prob)\n", "* np.log10(prob)\n"))
+M('c09_posinf_capped_low', 'C09', (V, "            data=np.nan_to_num(free_energy),\n", "            data=np.nan_to_num(free_energy, posinf=50.0),\n"))
+M('c09_threshold_le', 'C09', (PA, "        if 0 <= Fi < max_energy_threshold:\n", "        if 0 < Fi < max_energy_threshold:\n"))
